@@ -65,4 +65,7 @@ class MeshTet2(MeshTet1):
         return replace(MeshTet2.from_mesh(m), _subdomains=m._subdomains)
 
     def _adaptive(self, marked):
-        return MeshTet2.from_mesh(MeshTet1.from_mesh(self).refined(marked))
+        # from_mesh keeps the order of the elements: carry the subdomains
+        m = replace(MeshTet1.from_mesh(self),
+                    _subdomains=self._subdomains)._adaptive(marked)
+        return replace(MeshTet2.from_mesh(m), _subdomains=m._subdomains)
